@@ -19,6 +19,7 @@ type ExpandedLexer struct {
 	column            int
 	lastTokenWasValue bool
 	lastTokenLiteral  string
+	lastTokenWasAt    bool // the word after route/@ names the method or directive: never a keyword
 }
 
 // NewExpandedLexer creates a new ExpandedLexer for .glyphx files
@@ -97,6 +98,7 @@ func (l *ExpandedLexer) Tokenize() ([]Token, error) {
 			tok.Type == FLOAT || tok.Type == STRING || tok.Type == RPAREN ||
 			tok.Type == RBRACKET || tok.Type == TRUE || tok.Type == FALSE
 		l.lastTokenLiteral = tok.Literal
+		l.lastTokenWasAt = tok.Type == AT
 
 		tokens = append(tokens, tok)
 
@@ -342,6 +344,14 @@ func (l *ExpandedLexer) readIdentifier() Token {
 	}
 
 	tok.Literal = l.input[position:l.position]
+
+	// `@ route /path`, `@ command name`, `@ cron "…"`, `@ queue "…"` expand to
+	// `route route /path`, `route command name`, …: the word after route is an
+	// identifier there, as it is for the compact lexer
+	if l.lastTokenWasAt {
+		tok.Type = IDENT
+		return tok
+	}
 
 	// Check for expanded keywords first (these map to symbols)
 	switch tok.Literal {
